@@ -140,11 +140,11 @@ def check_init(ctx, num=4):
     ctx.touch(ci)
     ws = attr_writes(P, "assignment", include_mutation=False)
     ws = [w for w in ws if w.fn.cls == "Container" or norm.U(w.target).startswith(("c.", "container.", "self.")) and w.fn.mod.rel in (CT, RP)]
-    okc = [w for w in ws if w.fn.node is ci.node and isinstance(w.node, ast.Assign) and norm.U(w.node.value) == "assignment"]
+    okc = [w for w in ws if same_fn(w.fn, ci) and isinstance(w.node, ast.Assign) and norm.U(w.node.value) == "assignment"]
     ctx.ob(num, "K6", "a container's assignment is the constructor argument", len(okc) == 1, ci, okc[0].node if okc else ci.node,
            construct="self.assignment = assignment", detail=f"stores: {[repr(w) for w in ws]}")
     for w in ws:
-        if w.fn.node is not ci.node:
+        if not same_fn(w.fn, ci):
             ctx.ob(num, "K1", "a container's assignment is never replaced after construction", False, w.fn, w.node, detail=repr(w))
     # cpu/ram of an Assignment are write-once
     for a in ("cpu", "ram"):
